@@ -611,7 +611,7 @@ class Gen:
         return self.out
 
 
-def shadow_shape(rng, cs, forward, force_second_pass, depth):
+def shadow_shape(rng, cs, forward, force_second_pass, depth, qualified=True):
     """outer definition before the use, inner definition after it (the manual's FORWARD example)"""
     names = rng.sample(SEC_POOL[:4], depth)
     out = [("D", "loop", 0x111, False)]
@@ -622,7 +622,8 @@ def shadow_shape(rng, cs, forward, force_second_pass, depth):
     if forward:
         out.append(("F", [("loop", None)]))
     out.append(("U", "loop"))
-    out.append(("U", "loop[PARENT0]"))
+    if qualified:
+        out.append(("U", "loop[PARENT0]"))     # a forward reference of its own: asks for a second pass whatever FORWARD does
     out.append(("D", "loop", 0x333, False))
     out.append(("U", "loop"))
     for n in reversed(names):
@@ -820,6 +821,10 @@ def gen_cases(rng, n_rand, thorough):
             for force in (False, True):
                 cases.append(dict(tag="shadow:d%d:f%d:p%d" % (depth, forward, force), cs=False, cpu=rng.choice(list(CPUS)),
                                   stmts=shadow_shape(rng, False, forward, force, depth), stats=None))
+                if not force:
+                    # the unqualified use is the only thing that can ask for the second pass (FORWARD must do it)
+                    cases.append(dict(tag="shadow:d%d:f%d:p0:unq" % (depth, forward), cs=False, cpu=rng.choice(list(CPUS)),
+                                      stmts=shadow_shape(rng, False, forward, False, depth, qualified=False), stats=None))
     # every kind of defining statement as the opener of a range of temporary symbols, systematically
     for kind in Gen.OPENERS:
         for in_section in (False, True):
